@@ -310,7 +310,12 @@ func buildVariants(c ReprCase, known map[string]bool) ([]variant, bool) {
 		json.Unmarshal(js, &x)
 		_, sp, err := sio.ResolveSpecSource(context.Background(), map[string]interface{}{"inline": x})
 		vs = append(vs, variant{name: "sio-inline", spec: sp, err: err})
-		dir := workDir()
+		dir, derr := os.MkdirTemp(workDir(), "c13")
+		if derr != nil {
+			dir = workDir()
+		} else {
+			defer os.RemoveAll(dir)
+		}
 		fj := filepath.Join(dir, "c13spec.json")
 		fy := filepath.Join(dir, "c13spec.yaml")
 		os.WriteFile(fj, js, 0644)
